@@ -81,6 +81,9 @@ class F:
                         for x_ in ast.walk(it.optional_vars):
                             if isinstance(x_, ast.Name):
                                 d[x_.id] = None
+                        # `with open(..) as fh`: a file object enters as itself, fh names the open(..) value
+                        if isinstance(it.optional_vars, ast.Name) and isinstance(it.context_expr, ast.Call) and isinstance(it.context_expr.func, ast.Name) and it.context_expr.func.id == "open":
+                            d[it.optional_vars.id] = it.context_expr
             elif n.kind == "except" and n.stmt is not None and getattr(n.stmt, "name", None):
                 d[n.stmt.name] = None
             elif n.kind == "def" and n.stmt is not None:
